@@ -701,6 +701,19 @@ int dhcp_fastpath_prog(struct xdp_md *ctx) {
 		return XDP_PASS;
 	}
 
+	/* Everything that can still send the packet to the slow path must be
+	 * decided before the request is rewritten in place: the slow path has
+	 * to see the frame exactly as it arrived. */
+
+	/* The reply is built over a plain 20-byte IP header */
+	if (pkt.ip->ihl != 5) {
+		update_stat(STAT_FASTPATH_MISS);
+		return XDP_PASS;
+	}
+
+	/* Room for the reply options */
+	CHECK_BOUNDS_PASS(pkt.dhcp->options, pkt.data_end, MAX_DHCP_REPLY_OPTIONS_LEN);
+
 	/* CACHE HIT - Fast path! Generate reply in kernel */
 	update_stat(STAT_FASTPATH_HIT);
 
@@ -765,9 +778,7 @@ int dhcp_fastpath_prog(struct xdp_md *ctx) {
 	__builtin_memset(pkt.dhcp->sname, 0, sizeof(pkt.dhcp->sname));
 	__builtin_memset(pkt.dhcp->file, 0, sizeof(pkt.dhcp->file));
 
-	/* Build DHCP options */
-	CHECK_BOUNDS_PASS(pkt.dhcp->options, pkt.data_end, MAX_DHCP_REPLY_OPTIONS_LEN);
-
+	/* Build DHCP options (room was checked before the rewrite started) */
 	int opt_len = build_dhcp_options(pkt.dhcp->options, pkt.data_end,
 	                                  reply_type, pool, assignment,
 	                                  server_ip);
